@@ -9,6 +9,7 @@ import (
 	"os"
 	"os/signal"
 	"path/filepath"
+	"sync"
 	"time"
 
 	"github.com/whoisnian/glb/daemon"
@@ -73,7 +74,54 @@ func badMain() {
 	os.Exit(3)
 }
 
+// nMulti daemons with names of their own, launched at the same moment from one process: every
+// Launch must come back with the pid of the process that runs the handler of ITS name
+const nMulti = 16
+
+func multiName(i int) string { return fmt.Sprintf("c20-multi-%02d", i) }
+
+func multiMain(i int) func() {
+	return func() {
+		bornTo := os.Getppid()
+		touch(fmt.Sprintf("multi.%02d.started", i), fmt.Sprintf("%d %d", os.Getpid(), os.Getppid()))
+		if os.Getppid() == bornTo && bornTo > 1 {
+			daemon.Done()
+		}
+		for k := 0; k < 60000 && !exists("daemon.stop"); k++ {
+			time.Sleep(time.Millisecond)
+		}
+	}
+}
+
+// caller4: nMulti Launch calls released together by a barrier, each for a different name
+func caller4() {
+	type out struct {
+		Pid int    `json:"pid"`
+		Err string `json:"err"`
+	}
+	res := make([]out, nMulti)
+	var wg sync.WaitGroup
+	gate := make(chan struct{})
+	for i := 0; i < nMulti; i++ {
+		wg.Add(1)
+		go func(i int) {
+			defer wg.Done()
+			<-gate
+			pid, err := daemon.Launch(multiName(i))
+			res[i] = out{pid, fmt.Sprint(err)}
+		}(i)
+	}
+	close(gate)
+	wg.Wait()
+	data, _ := json.Marshal(map[string]any{"launches": res, "caller_pid": os.Getpid()})
+	os.WriteFile(filepath.Join(dir(), "result4.json.tmp"), data, 0o644)
+	os.Rename(filepath.Join(dir(), "result4.json.tmp"), filepath.Join(dir(), "result4.json"))
+}
+
 func init() {
+	for i := 0; i < nMulti; i++ {
+		daemon.Register(multiName(i), multiMain(i))
+	}
 	daemon.Register(badName, badMain)
 	daemon.Register(name, daemonMain)
 	if daemon.Run() {
@@ -135,6 +183,10 @@ func caller3(dirBad, dirGood string) {
 func main() {
 	if len(os.Args) == 4 && os.Args[1] == "caller3" {
 		caller3(os.Args[2], os.Args[3])
+		return
+	}
+	if len(os.Args) == 2 && os.Args[1] == "caller4" {
+		caller4()
 		return
 	}
 	if len(os.Args) == 4 && os.Args[1] == "caller2" {
